@@ -190,10 +190,13 @@ def _systematic_unit(args):
         seq_outs = sequential_outcomes(model, start, calls)
         for first in (0, 1):
             prev = None
+            stuck = 0
             for k in range(0, max_cut):
                 ex = execute(contents, cfg, start, calls, cut_chooser(first, k), mp_mode=mp_mode)
                 n_exec += 1
-                if ex["schedule"] == prev:
+                if ex["outcome"] == "stuck":
+                    stuck += 1
+                if ex["schedule"] == prev or stuck > 1:
                     break
                 prev = ex["schedule"]
                 problems, dis = judge(prop_id, sn, start, calls, ex, seq_outs)
@@ -393,8 +396,12 @@ def run(prop_id, tier, seed, report, mp_mode=False):
             seq_outs = sequential_outcomes(model, start, calls)
             for k, cf in enumerate(choosers):
                 chooser = cf() if cf else random_chooser(random.Random(rng.random()), stick=rng.choice([0.3, 0.6, 0.85]))
+                if stats.get("stuck", 0) >= 2:
+                    continue        # a worker blocks outside the scheduler's control: reported, not worth 20 s a run
                 ex = execute(contents, cfg, start, calls, chooser, mp_mode=mp_mode)
                 stats["execs"] += 1
+                if ex["outcome"] == "stuck":
+                    stats["stuck"] = stats.get("stuck", 0) + 1
                 stats["blocked"] += ex["blocked_attempts"]
                 rc = result_classes(ex["results"])
                 stats["outcomes"][rc] = stats["outcomes"].get(rc, 0) + 1
